@@ -13,7 +13,7 @@
 //!          then each datagram is handed to V's transport receiver (all worker stages run), the
 //!          datagrams V sends in reaction are recorded and DROPPED (V's state only depends on
 //!          the injected datagrams), finally the liveness probe runs with a normal network.
-//!   output (one line):  LOG ... | D0 OK <bytes requested> <peak> <micros> <hex,hex|-> | D1 ... | PROBE hv=1 vh=1 api=1 wake=1 | END
+//!   output (one line):  LOG ... | D0 OK <bytes requested> <peak> <largest single request> <micros> <hex,hex|-> | D1 ... | PROBE hv=1 vh=1 api=1 wake=1 | END
 //!          a panic ends the line with `PANIC <file>:<line>` (panic hook of the child), a request
 //!          of more than 1 GiB from the allocator with `OOM <bytes>`, the wall-clock watchdog of
 //!          the parent with `HANG`.
@@ -27,6 +27,8 @@ struct Counting;
 static TOTAL: AtomicUsize = AtomicUsize::new(0);
 static LIVE: AtomicUsize = AtomicUsize::new(0);
 static PEAK: AtomicUsize = AtomicUsize::new(0);
+/// largest single request since it was last reset
+static MAXREQ: AtomicUsize = AtomicUsize::new(0);
 const TRAP: usize = 1 << 30;
 
 static IN_TRAP: std::sync::atomic::AtomicBool = std::sync::atomic::AtomicBool::new(false);
@@ -63,6 +65,7 @@ fn on_alloc(n: usize) {
     if n > TRAP {
         trap(n);
     }
+    MAXREQ.fetch_max(n, Relaxed);
     TOTAL.fetch_add(n, Relaxed);
     let l = LIVE.fetch_add(n, Relaxed) + n;
     if l > 3 * TRAP {
@@ -731,6 +734,7 @@ fn run_case(line: &str) {
         let live0 = LIVE.load(Relaxed);
         let total0 = TOTAL.load(Relaxed);
         PEAK.store(live0, Relaxed);
+        MAXREQ.store(0, Relaxed);
         let t0 = std::time::Instant::now();
         let p = Packet { id: 0, from: 999, to: VICTIM, meta: false, bytes, held: false };
         DEADLINE_MS.store(start.elapsed().as_millis() as usize + limit_ms, Relaxed);
@@ -739,6 +743,7 @@ fn run_case(line: &str) {
         let us = t0.elapsed().as_micros();
         let total = TOTAL.load(Relaxed) - total0;
         let peak = PEAK.load(Relaxed).saturating_sub(live0);
+        let maxreq = MAXREQ.load(Relaxed);
         // what the victim sent in reaction; nothing of it is delivered
         w.sim.shared.inflight.lock().unwrap().clear();
         let log = w.sim.shared.sent_log.lock().unwrap();
@@ -750,7 +755,7 @@ fn run_case(line: &str) {
         }
         mark = log.len();
         drop(log);
-        say(&format!("OK {} {} {} {}", total, peak, us, if outs.is_empty() { "-".to_string() } else { outs.join(",") }));
+        say(&format!("OK {} {} {} {} {}", total, peak, maxreq, us, if outs.is_empty() { "-".to_string() } else { outs.join(",") }));
     }
     if g("probe", 1) == 1 {
         // liveness: healthy writer -> victim reader, victim writer -> healthy reader, one API call
